@@ -31,6 +31,7 @@ inductive Ev where
   | closeCallInRecv                -- close() called from inside the receive task (from the status callback it runs)
   | closeCallInReconn              -- close() called from inside the reconnect task (from the status callback that its connect() runs)
   | connCancel                     -- the connect() call that holds the lock is cancelled by its caller (e.g. wait_for): it ends wherever it is
+  | connGiveUp (c : Nat)           -- the connect() call that holds the lock is cancelled after it reported CONNECTED on link c and before the receive task exists: it gives the link up like after a fault
   | abandon (c : Nat)              -- connect() finds the client CONNECTED on link c with no receive task (an earlier connect() was cancelled by its caller): the link is given up
   | connCallInRecv                 -- connect() called from inside the receive task: returns at once, that task reconnects by itself
   | reconnStart | reconnEnd        -- life cycle of the reconnect task that a fault report schedules
@@ -168,6 +169,9 @@ def stepCore (s : CS) (e : Ev) : Option CS :=
   -- nobody reads from the link: that is a fault of it (it is shut, DISCONNECTED is reported, and the call goes on to connect)
   | .abandon c => guard (s.st = .connected && s.recv.isNone && s.conn = some c && !s.connActive && s.calls > 0 && !s.abandoning)
       { s with faults := s.faults + 1, faulted := c :: s.faulted, abandoning := true }
+  | .connGiveUp c =>
+    guard (s.st = .connected && s.connActive && s.okConn = some c && s.conn = some c)
+      { s with faults := s.faults + 1, faulted := c :: s.faulted }
   | .connCancel =>
     guard (s.calls > 0 && s.connActive && s.st ≠ .closed)
       { s with calls := s.calls - 1, connActive := false, tryNo := 0, okConn := none, lastFailed := false, slept := false, implPending := false }
